@@ -27,11 +27,13 @@ TIERS = {
     "quick": {"shards": 4, "cases": 4000, "timeout": 300},
     "thorough": {"shards": 16, "cases": 12000, "timeout": 3000},
 }
-FLOORS = {"quick": {"original_text_asked_with_the_text_in_another_form": 100000,
+FLOORS = {"quick": {"lexical_errors_behind_a_syntax_error_checked": 500, "sequence_nodes_checked": 1800,
+                    "original_text_asked_with_the_text_in_another_form": 100000,
                     "distinct_nontrivial": 800, "tokens_checked": 50000, "nodes_checked": 30000,
                     "empty_nodes_checked": 2000, "multiline_span_tokens": 500, "lexical_errors_checked": 300,
                     "first_tokens_of_later_lines": 5000},
-          "thorough": {"original_text_asked_with_the_text_in_another_form": 400000,
+          "thorough": {"lexical_errors_behind_a_syntax_error_checked": 2100, "sequence_nodes_checked": 7500,
+                       "original_text_asked_with_the_text_in_another_form": 400000,
                        "distinct_nontrivial": 30000, "tokens_checked": 2000000, "nodes_checked": 1000000,
                        "empty_nodes_checked": 80000, "multiline_span_tokens": 20000,
                        "lexical_errors_checked": 10000, "first_tokens_of_later_lines": 200000}}
